@@ -343,6 +343,17 @@ def check_c12(chk, rng):
         nb = rng.randint(2, 3)
         branches = [branch_graph(rng, 10 * (b + 1), two) for b in range(nb)]
         has_default = rng.random() < 0.3
+        # the default is either one of the keyed definitions or a definition of its own, larger than every keyed one
+        own_default = has_default and rng.random() < 0.6
+        if own_default:
+            for b in range(nb):
+                while len(branches[b][0]) > 2:
+                    branches[b] = branch_graph(rng, 10 * (b + 1), two)
+            d = branch_graph(rng, 10 * (nb + 1), two)
+            while len(d[0]) < 3:
+                d = branch_graph(rng, 10 * (nb + 1), two)
+            branches.append(d)
+        dflt = nb if own_default else nb - 1
         reload = rng.random() < 0.3
         unmatched = (not has_default) and rng.random() < 0.12
         # with a default branch several different unmatched keys are all served by it: each change of key is still a
@@ -367,7 +378,7 @@ def check_c12(chk, rng):
         if two:
             lines.append("n 5 src script=" + ";".join("%d:%d" % (t, v) for t, v in ts2))
         cases = ",".join("%d:%d" % (b + 1, b) for b in range(nb))
-        lines.append("n 3 switch in=1,2%s cases=%s%s%s" % (",5" if two else "", cases, " dflt=%d" % (nb - 1) if has_default else "",
+        lines.append("n 3 switch in=1,2%s cases=%s%s%s" % (",5" if two else "", cases, " dflt=%d" % dflt if has_default else "",
                                                          " reload=1" if reload else ""))
         lines += ["n 4 rec in=3", "endgraph", "run"]
         scn = "\n".join(lines)
@@ -377,7 +388,7 @@ def check_c12(chk, rng):
             if k in (7, 8) and not has_default:
                 fail_at = t
                 break
-            b = (k - 1) if k not in (7, 8) else (nb - 1)
+            b = (k - 1) if k not in (7, 8) else dflt
             if cur is None or reload or k != cur[1]:
                 if cur is not None:
                     ivs.append((cur[0], t, cur[2]))
@@ -449,8 +460,12 @@ def check_c11(chk, rng):
     hists, scns = [], []
     for s in range(nscn):
         big = s % 6 == 0
+        # wide: more live entries than one 64-bit word of the combiner tree's bookkeeping, built at once, then single leaves tick
+        wide = s % 50 == 7
         nk = rng.choice([8, 12, 20]) if big else rng.choice([2, 3, 5])
         horizon = rng.choice([10, 14]) if big else rng.choice([5, 7, 9])
+        if wide:
+            nk, horizon, big = rng.choice([66, 100, 130, 200]), 8, False
         comb = rng.choice(["add", "add", "min", "max", "gadd", "nadd"])
         zero = rng.choice([None, None, 0, 100, -7])
         present, ops = {}, []
@@ -459,13 +474,20 @@ def check_c11(chk, rng):
                 continue
             cyc, touched = [], set()
             phase = rng.random()
-            for _ in range(rng.randint(1, 6 if big else 3)):
+            if wide and not present:
+                for k in range(1, nk + 1):
+                    v = rng.choice([1, 2, 3, 5, 8])
+                    cyc.append([k, v])
+                    present[k] = v
+                ops.append([t, cyc])
+                continue
+            for _ in range(rng.randint(1, 6 if big else (2 if wide else 3))):
                 k = rng.randint(1, nk)
                 if k in touched:
                     continue
                 touched.add(k)
                 # grow, churn, shrink to empty, regrow
-                remove_p = 0.15 if phase < 0.5 else 0.6
+                remove_p = 0.15 if phase < 0.5 else (0.2 if wide else 0.6)
                 if k in present and rng.random() < remove_p:
                     cyc.append([k])
                     del present[k]
